@@ -1,0 +1,75 @@
+//go:build verif
+
+package redisemu
+
+// Reply shaping of the thin handlers: what the store method found is what the
+// client is told (C02 strings, C04 hashes, C05 sets). Lengths are byte lengths.
+
+//@ define thinhandler
+//@ safetyprop C13
+//@ requires ctx != nil && ctx.dsc != nil && dscOK(ctx.dsc)
+//@ requires [C08,C16] unlocked: lockMode(ctx.dsc)
+//@ requires !mutated && !bumped && !removedKey
+//@ modifies *
+//@ end
+
+//@ func fnHStrLen
+//@ prop C04
+//@ include thinhandler
+//@ ensures internal [C04] bytes: valid == VALUE_EXISTS ==> output.data == respInt(len(str))
+//@ ensures internal [C04] wrongtype: valid == VALUE_WRONG_TYPE ==> output.data == wrongTypeError
+//@ ensures internal [C04] missing: valid != VALUE_WRONG_TYPE && valid != VALUE_EXISTS ==> output.data == respInt(0)
+//@ ensures [C04,C06] readonly: !mutated
+
+//@ func fnHGet
+//@ prop C04
+//@ include thinhandler
+//@ ensures internal [C04] value: valid == VALUE_EXISTS ==> output.data == respBulkString(str)
+//@ ensures internal [C04] wrongtype: valid == VALUE_WRONG_TYPE ==> output.data == wrongTypeError
+//@ ensures internal [C04] missing: valid != VALUE_WRONG_TYPE && valid != VALUE_EXISTS ==> output.data == nil
+//@ ensures [C04,C06] readonly: !mutated
+
+//@ func fnHExists
+//@ prop C04
+//@ include thinhandler
+//@ ensures internal [C04] present: valid == VALUE_EXISTS ==> output.data == respInt(1)
+//@ ensures internal [C04] wrongtype: valid == VALUE_WRONG_TYPE ==> output.data == wrongTypeError
+//@ ensures internal [C04] missing: valid != VALUE_WRONG_TYPE && valid != VALUE_EXISTS ==> output.data == respInt(0)
+//@ ensures [C04,C06] readonly: !mutated
+
+//@ func fnHLen
+//@ prop C04
+//@ include thinhandler
+//@ ensures internal [C04] count: !wrongType ==> output.data == respInt(count)
+//@ ensures internal [C04] wrongtype: wrongType ==> output.data == wrongTypeError
+//@ ensures [C04,C06] readonly: !mutated
+
+//@ func fnStrLen
+//@ prop C02
+//@ include thinhandler
+//@ ensures internal [C02] bytes: valid == VALUE_EXISTS ==> output.data == respInt(len(str))
+//@ ensures internal [C02] wrongtype: valid == VALUE_WRONG_TYPE ==> output.data == wrongTypeError
+//@ ensures internal [C02] missing: valid != VALUE_WRONG_TYPE && valid != VALUE_EXISTS ==> output.data == respInt(0)
+//@ ensures [C02,C06] readonly: !mutated
+
+//@ func fnGet
+//@ prop C02
+//@ include thinhandler
+//@ ensures internal [C02] value: valid == VALUE_EXISTS ==> output.data == respBulkString(str)
+//@ ensures internal [C02] wrongtype: valid == VALUE_WRONG_TYPE ==> output.data == wrongTypeError
+//@ ensures internal [C02] missing: valid != VALUE_WRONG_TYPE && valid != VALUE_EXISTS ==> output.data == nil
+//@ ensures [C02,C06] readonly: !mutated
+
+//@ func fnGetDel
+//@ prop C02
+//@ include thinhandler
+//@ ensures internal [C02] value: valid == VALUE_EXISTS ==> output.data == respBulkString(str)
+//@ ensures internal [C02] wrongtype: valid == VALUE_WRONG_TYPE ==> output.data == wrongTypeError && !mutated
+//@ ensures internal [C02] missing: valid != VALUE_WRONG_TYPE && valid != VALUE_EXISTS ==> output.data == nil
+
+//@ func fnSCard
+//@ prop C05
+//@ include thinhandler
+//@ ensures internal [C05] count: !wrongType ==> output.data == respInt(count)
+//@ ensures internal [C05] wrongtype: wrongType ==> output.data == wrongTypeError
+//@ ensures [C05,C06] readonly: !mutated
